@@ -1168,6 +1168,11 @@ def run(chk):
                 continue
         chk.violation(file_signature(sm, v), f"well-formed file {v[0]} ({v[1]})", {"file": sm["file"], "mode": sm["mode"], "seed": sm["seed"], "text": r3["text"], "impl": {k: r3.get(k) for k in ("ok", "exc", "mis")}})
     chk.units["U-files"] = {"files": nfiles, "layouts_per_file": 3}
+    # ---------------------------------------------------------------- the LALR automaton (design_notes/LR.md)
+    from vlib import lrlib
+
+    leanio.prove(chk, "MontePyVerif.Props.C12LR", lrlib.THEOREMS, "MontePyVerif.C12LR")
+    lrlib.run_unit(chk, items, TABLES)
     chk.extra["broken_examples"] = [{"name": b["name"], "detail": b["detail"], "case": b["case"]} for b in chk.broken][:6]
     chk.extra["rule_coverage"] = dict(sorted(covered.items()))
     chk.extra["adjacent_rule_pairs_covered"] = len(pairs)
